@@ -1,5 +1,135 @@
 import OasisModel.Proto
-/- C16 decoders: driver stub (not built yet). -/
+import OasisModel.Codec.Proof
+/-
+Driver for the codec model (`om_codec`), used as a checker: every input line carries the
+bytes fed to the real Go decoder/encoder *and* what the implementation answered; the model
+recomputes the answer and replies `ok` or `DIVERGE <detail>`.
+
+  consts <emptyHash> <PrefixLeafNode> <PrefixInternalNode> <PrefixNilNode> <hash.Size> <DepthSize>
+  depth <in> err <class> | ok <consumed> <value>
+  key   <in> err <class> | ok <consumed> <re-marshalled>
+  leaf  <in> err <class> | ok <consumed> <key> <value> <marshal>
+  inode <in> err <class> | ok <consumed> <bits> <label> <leaf> <left> <right> <full> <cv0> <cv1>
+  node  <in> err <class> | ok L|I <full> <cv0> <cv1>
+  entry <in|~> err <class> | ok nil|full|hash
+  proof <v> <entries> err <class> | ok <writelog>
+  enc-key <key> <bytes>
+  enc-leaf <key> <value> <bytes>
+  enc-inode <bits> <label> <leaf> <left> <right> <full> <cv0> <cv1>
+Hex fields: `-` is the empty byte string, `~` a nil pointer / nil entry; a leaf is `key:value`;
+entry lists and write logs are comma separated, `none` when empty.
+-/
 namespace OasisModel.Codec.Driver
-def main : IO Unit := IO.eprintln "mode not implemented"
+open OasisModel.Proto OasisModel.Codec
+
+def optHex (s : String) : Option (Option Bytes) :=
+  if s == "~" then some none else (parseHex s).map some
+
+def showOptHex : Option Bytes → String
+  | none => "~"
+  | some b => showHex b
+
+def parseLeafSlot (s : String) : Option (Option Leaf) :=
+  if s == "~" then some none else
+  match s.splitOn ":" with
+  | [k, v] => do
+    let k ← parseHex k
+    let v ← parseHex v
+    pure (some { key := k, value := v })
+  | _ => none
+
+def showLeafSlot : Option Leaf → String
+  | none => "~"
+  | some l => showHex l.key ++ ":" ++ showHex l.value
+
+def parseEntries (s : String) : Option (List (Option Bytes)) :=
+  if s == "none" then some [] else (s.splitOn ",").mapM optHex
+
+def showWriteLog (wl : List (Bytes × Bytes)) : String :=
+  if wl.isEmpty then "none" else ",".intercalate (wl.map fun (k, v) => showHex k ++ ":" ++ showHex v)
+
+def showRes {α : Type} (f : α → Nat → String) : Except Err (α × Nat) → String
+  | .error e => "err " ++ e.toString
+  | .ok (x, n) => "ok " ++ f x n
+
+def expect (model impl : String) : String :=
+  if model == impl then "ok" else s!"DIVERGE model=[{model}] impl=[{impl}]"
+
+def showInternal (n : Internal) : String :=
+  let c := n.children.getD (none, none)
+  s!"{n.labelBits} {showHex n.label} {showLeafSlot n.leaf} {showOptHex c.1} {showOptHex c.2}"
+
+def marshals (n : Internal) : String :=
+  s!"{showHex (encodeInternalFull n)} {showHex (encodeInternalCompactV0 n)} {showHex (encodeInternalCompactV1 n)}"
+
+def nodeAnswer : Node → String
+  | .leaf l => let b := showHex (encodeLeaf l); s!"L {b} {b} {b}"
+  | .internal n => "I " ++ marshals n
+
+def entryKind : Entry → String
+  | .nil => "nil"
+  | .full _ => "full"
+  | .hash _ => "hash"
+
+def step (_ : Unit) (line : String) : Unit × String :=
+  let ws := words line
+  let answer : String :=
+    match ws with
+    | [] => "ok"
+    | "consts" :: rest =>
+      -- emptyHash, PrefixLeafNode, PrefixInternalNode, PrefixNilNode, hash.Size, DepthSize
+      expect s!"{showHex emptyHash} 0 1 2 {hashSize} 2" (" ".intercalate rest)
+    | "depth" :: inp :: rest =>
+      match parseHex inp with
+      | none => "DIVERGE bad-op"
+      | some d => expect (showRes (fun v n => s!"{n} {v}") (decodeDepth d)) (" ".intercalate rest)
+    | "key" :: inp :: rest =>
+      match parseHex inp with
+      | none => "DIVERGE bad-op"
+      | some d => expect (showRes (fun k n => s!"{n} {showHex (encodeKey k)}") (decodeKey d)) (" ".intercalate rest)
+    | "leaf" :: inp :: rest =>
+      match parseHex inp with
+      | none => "DIVERGE bad-op"
+      | some d =>
+        expect (showRes (fun l n => s!"{n} {showHex l.key} {showHex l.value} {showHex (encodeLeaf l)}") (decodeLeaf d))
+          (" ".intercalate rest)
+    | "inode" :: inp :: rest =>
+      match parseHex inp with
+      | none => "DIVERGE bad-op"
+      | some d =>
+        expect (showRes (fun nd n => s!"{n} {showInternal nd} {marshals nd}") (decodeInternal d)) (" ".intercalate rest)
+    | "node" :: inp :: rest =>
+      match parseHex inp with
+      | none => "DIVERGE bad-op"
+      | some d => expect (showRes (fun nd _ => nodeAnswer nd) (unmarshalNode d)) (" ".intercalate rest)
+    | "entry" :: inp :: rest =>
+      match optHex inp with
+      | none => "DIVERGE bad-op"
+      | some e => expect (showRes (fun en _ => entryKind en) (decodeEntry e)) (" ".intercalate rest)
+    | "proof" :: v :: ents :: rest =>
+      match v.toNat?, parseEntries ents with
+      | some v, some es =>
+        let m := match (verifyProof v es).2 with
+          | .error e => "err " ++ e.toString
+          | .ok t => "ok " ++ showWriteLog t.writeLog
+        expect m (" ".intercalate rest)
+      | _, _ => "DIVERGE bad-op"
+    | ["enc-key", k, b] =>
+      match parseHex k with
+      | some k => expect (showHex (encodeKey k)) b
+      | none => "DIVERGE bad-op"
+    | ["enc-leaf", k, v, b] =>
+      match parseHex k, parseHex v with
+      | some k, some v => expect (showHex (encodeLeaf { key := k, value := v })) b
+      | _, _ => "DIVERGE bad-op"
+    | ["enc-inode", bits, label, leaf, l, r, full, cv0, cv1] =>
+      match bits.toNat?, parseHex label, parseLeafSlot leaf, optHex l, optHex r with
+      | some bits, some label, some leaf, some l, some r =>
+        expect (marshals { labelBits := bits, label := label, leaf := leaf, children := some (l, r) }) s!"{full} {cv0} {cv1}"
+      | _, _, _, _, _ => "DIVERGE bad-op"
+    | _ => "DIVERGE bad-op"
+  ((), answer)
+
+def main : IO Unit := loop step ()
+
 end OasisModel.Codec.Driver
